@@ -139,9 +139,13 @@ func minU(a, b uint64) uint64 {
 func twoWriterBufferPhase(r *ev.Run, rng *rand.Rand) {
 	maxRuns := r.Pick(8, 24) // schedules per case and start order
 	for ci, c0 := range twCases(r, rng) {
-		for _, aFirst := range []bool{true, false} {
+		for oi, aFirst := range []bool{true, false, true, false} {
 			c := c0
 			c.AFirst = aFirst
+			readerPos := []int{0, 2, 1, 1}[oi] // no reader / reader started last / reader started second
+			if oi >= 2 && ci%2 == 1 && !r.Thorough() {
+				continue
+			}
 			ex := &sched.Explorer{}
 			for ex.Runs < maxRuns {
 				ch := ex.Next()
@@ -163,7 +167,7 @@ func twoWriterBufferPhase(r *ev.Run, rng *rand.Rand) {
 						overlapped = true
 					}
 				}
-				var panics [2]interface{}
+				var panics [3]interface{}
 				workerA := func() {
 					defer func() { panics[0] = recover() }()
 					for k := 0; k < c.ARecs; k++ {
@@ -180,9 +184,60 @@ func twoWriterBufferPhase(r *ev.Run, rng *rand.Rand) {
 						buf.Record(newRec(uint64(200001 + k)))
 					}
 				}
+				// third party: a reader (the Sync handler's RecordsFrom / GetNextIndex) that queues on
+				// the same lock as the second writer while the first one's Save is parked
+				var readerBad string
+				readAt := uint64(0)
+				if c.Prefill > 2 {
+					readAt = uint64(c.Prefill - 2)
+				}
+				workerR := func() {
+					defer func() { panics[2] = recover() }()
+					for rep := 0; rep < 2 && readerBad == ""; rep++ {
+						got := buf.RecordsFrom(readAt)
+						hi := buf.NextIndex()
+						var lastP, lastA, lastB uint64
+						for k, ri := range got {
+							if ri == nil {
+								readerBad = fmt.Sprintf("nil record at position %d", k)
+								break
+							}
+							id := ri.GetID()
+							switch {
+							case id >= 200001:
+								if lastB != 0 && id != lastB+1 {
+									readerBad = fmt.Sprintf("records of writer B not consecutive at position %d", k)
+								}
+								lastB = id
+							case id >= 100001:
+								if lastA != 0 && id != lastA+1 {
+									readerBad = fmt.Sprintf("records of writer A not consecutive at position %d", k)
+								}
+								lastA = id
+							default:
+								if (lastP != 0 && id != lastP+1) || lastA != 0 || lastB != 0 {
+									readerBad = fmt.Sprintf("earlier records out of order at position %d", k)
+								}
+								lastP = id
+							}
+						}
+						if readerBad == "" && len(got) > c.Cap {
+							readerBad = "more records than the capacity"
+						}
+						if readerBad == "" && c.BKind == "records" && hi >= readAt && uint64(len(got)) > hi-readAt {
+							readerBad = fmt.Sprintf("RecordsFrom(%d) returned %d records, next index right after is %d", readAt, len(got), hi)
+						}
+					}
+				}
 				ws, names := []func(){workerA, workerB}, "A,B"
 				if !aFirst {
 					ws, names = []func(){workerB, workerA}, "B,A"
+				}
+				switch readerPos {
+				case 1:
+					ws, names = []func(){ws[0], workerR, ws[1]}, names[:1]+",R,"+names[2:]
+				case 2:
+					ws, names = append(ws, workerR), names+",R"
 				}
 				store.Gate, store.Done = sc.Gate, sc.Done
 				sc.Run(ws, ch)
@@ -201,7 +256,7 @@ func twoWriterBufferPhase(r *ev.Run, rng *rand.Rand) {
 				if sc.Blocked > 0 {
 					r.Count("buffer_two_writer_executions_second_writer_blocked_on_lock", 1)
 				}
-				r.Distinct(fmt.Sprintf("buf2w|%d|%d|%d|%s|%v|%s", c.Cap, c.Prefill, c.ARecs, c.BKind, aFirst, sc.TraceKey()))
+				r.Distinct(fmt.Sprintf("buf2w|%d|%d|%d|%s|%v|%d|%s", c.Cap, c.Prefill, c.ARecs, c.BKind, aFirst, readerPos, sc.TraceKey()))
 				var saves []string
 				for _, e := range store.Log() {
 					if e.Kind == "Save" {
@@ -217,9 +272,16 @@ func twoWriterBufferPhase(r *ev.Run, rng *rand.Rand) {
 					}
 					return m
 				}
-				if panics[0] != nil || panics[1] != nil {
-					r.Violation("history-buffer:panic:two-writers", fmt.Sprintf("panic inside a buffer call running concurrently with another writer: %v %v", panics[0], panics[1]), wit(nil))
+				if panics[0] != nil || panics[1] != nil || panics[2] != nil {
+					r.Violation("history-buffer:panic:two-writers", fmt.Sprintf("panic inside a buffer call running concurrently with another writer: %v %v %v", panics[0], panics[1], panics[2]), wit(nil))
 					break
+				}
+				if readerPos > 0 {
+					r.Count("buffer_three_party_executions", 1)
+				}
+				if readerBad != "" {
+					r.Violation("history-buffer:records-from-wrong:three-parties", "a reader queued behind a writer parked in its index save, together with a second writer, got something that is not a run of the log: "+readerBad, wit(nil))
+					continue
 				}
 				if why, d := twJudgeWindow(buf, c); why != "" {
 					r.Violation("history-buffer:records-from-wrong:two-writers:"+c.BKind, "after two concurrent writers returned the log is not what any serial order of the calls leaves: "+why, wit(map[string]interface{}{"detail": d}))
